@@ -381,24 +381,43 @@ def l2_models(ck, th, liveness=False):
                          spec='FairSpec', consts=l2_consts(3, MaxMsg=1, Kinds='{"poll", "send", "disc"}'),
                          properties=['DisconnectReturns'], f6=True))
 
+    wsc = dict(l2_consts(5 if th else 4), Kinds='{"send", "disc"}', Timeouts='FALSE',
+               WsEnv='{"close", "gone"}')
+    jobs.append(dict(name='L2 websocket session: reader + writer + %d short tasks (send / '
+                          'disconnect(sid)), client CLOSE frame and client gone at any point'
+                          % (3 if th else 2), module='EioQueueFineWs', spec='WsSpec', consts=wsc,
+                     invariants=['WsTypeOK', 'OneDisconnect', 'ClosedHasDisconnect', 'WsNoLossNoDup',
+                                 'WsInOrder', 'CounterSound']))
+    if liveness:
+        wl = dict(l2_consts(3, MaxMsg=1), Kinds='{"send", "disc"}', Timeouts='FALSE', WsEnv='{}')
+        jobs.append(dict(name='L2 websocket liveness: once closed, reader and writer end',
+                         module='EioQueueFineWs', spec='WsFairSpec',
+                         consts=dict(wl, WsEnv='{"close", "gone"}', Proc='{1, 2, 3, 4}'),
+                         properties=['WsTasksEnd'], min_states=100))
+        jobs.append(dict(name='L2 websocket liveness: disconnect(sid) returns - expected to fail '
+                              '(finding F6b: the joiner misses the instant the counter is zero)',
+                         module='EioQueueFineWs', spec='WsFairSpec', consts=wl,
+                         properties=['WsDisconnectReturns'], f6='F6b'))
+
     def one(j):
         cfg = tlc.cfg_text(spec=j['spec'], constants=j['consts'], invariants=j.get('invariants', ()),
                            properties=j.get('properties', ()))
-        return j, tlc.run('EioQueueFine', cfg, workers=max(2, NCPU // 2), timeout=1500,
-                          constants=j['consts'])
+        return j, tlc.run(j.get('module', 'EioQueueFine'), cfg, workers=max(2, NCPU // 2),
+                          timeout=1500, constants=j['consts'])
     with cf.ThreadPoolExecutor(max_workers=2) as ex:
         for j, r in ex.map(one, jobs):
             if r.error:
                 raise MachineryError('TLC job %s failed: %s\n%s' % (j['name'], r.error, r.out[-2000:]))
             ck.add_tlc(r, j['name'])
             if j.get('f6'):
+                fid = j['f6'] if isinstance(j['f6'], str) else 'F6'
                 opn, _ = load_known_findings(ck.pid)
-                f6 = [e for e in opn if e['id'] == 'F6']
+                f6 = [e for e in opn if e['id'] == fid]
                 txt = '\n'.join(r.trace)
                 # the counterexample must be the listed finding: the joiner waits in d_join while
                 # everything left in the queue can no longer be consumed (polls are refused)
                 if r.violated and f6 and '"d_join"' in txt:
-                    ck.known_finding('F6', f6[0]['what'])
+                    ck.known_finding(fid, f6[0]['what'])
                     ck.cov.setdefault('known_finding_counterexamples', []).append(
                         {'model': j['name'], 'length': len(r.trace)})
                 elif r.violated:
@@ -409,7 +428,7 @@ def l2_models(ck, th, liveness=False):
                 ck.violation('EioQueueFine: %s violated (%s)' % (r.violated, j['name']),
                              {'job': j['name'], 'constants': j['consts'],
                               'counterexample': '\n'.join(r.trace)[-8000:] or r.out[-3000:]})
-            elif r.distinct < 500:
+            elif r.distinct < j.get('min_states', 500):
                 raise MachineryError('vacuity: %s has only %d states' % (j['name'], r.distinct))
 
 
@@ -443,14 +462,49 @@ def l2_conform(ck, seed, n):
         ck.violation('EioQueueFine invariant %s violated on a real execution' % inv,
                      {'script': facts[i]['script'], 'schedule_seed': facts[i]['schedule_seed'],
                       'tlc': txt, 'kind': 'l2-trace'})
+    # the same for one websocket session (reader + writer threads)
+    wtraces, wfacts = [], []
+    for i, sc in enumerate(l2.ws_scripts(seed + 37, n)):
+        t, f = l2.run_ws(sc, seed=seed * 100019 + i)
+        wtraces.append(t)
+        wfacts.append(f)
+        ck.distinct(['l2ws', sc, f['schedule_seed']])
+    wconsts = dict(l2_consts(12, MaxMsg=99, Cap=16, SerialPolls='FALSE', Timeouts='FALSE'),
+                   Kinds='{"send", "disc"}', WsEnv='{"close", "gone"}')
+    wv = tracecheck.validate('EioQueueFineWsTrace', wtraces, constants=wconsts,
+                             invariants=['WsTypeOK', 'OneDisconnect', 'ClosedHasDisconnect',
+                                         'WsNoLossNoDup', 'WsInOrder', 'CounterSound'])
+    ck.cov['states'] += wv.states
+    ck.cov['transitions'] += wv.generated
+    ck.add_conformance('threaded server, one websocket session (reader task + writer thread), groups '
+                       'of concurrent send() / disconnect(sid), client CLOSE frame / client gone, '
+                       'under pre-emptive schedules: every queue primitive, the writer closing the '
+                       'socket and every task return is one step of EioQueueFineWs', len(wtraces),
+                       len(wv.accepted), primitive_records=sum(len(t['log']) for t in wtraces))
+    for i in wv.rejected[:3]:
+        ck.violation('primitive-level trace rejected by EioQueueFineWs (schedule seed %s)'
+                     % wfacts[i]['schedule_seed'],
+                     {'script': wfacts[i]['script'], 'schedule_seed': wfacts[i]['schedule_seed'],
+                      'trace': wtraces[i], 'ws': True, 'kind': 'l2-trace'})
+    for i, inv, txt in wv.inv_violations[:3]:
+        ck.violation('EioQueueFineWs invariant %s violated on a real execution' % inv,
+                     {'script': wfacts[i]['script'], 'schedule_seed': wfacts[i]['schedule_seed'],
+                      'tlc': txt, 'ws': True, 'kind': 'l2-trace'})
 
 
 def replay_l2(pid, rp):
     from ..harness import l2
-    t, f = l2.run(rp['script'], seed=rp['schedule_seed'])
-    consts = l2_consts(12, MaxMsg=99, Cap=16, SerialPolls='FALSE', Timeouts='FALSE')
-    v = tracecheck.validate('EioQueueFineTrace', [t], constants=consts,
-                            invariants=[i for i in L2_INVS if i != 'DeliveredInOrder'])
+    if rp.get('ws'):
+        t, f = l2.run_ws(rp['script'], seed=rp['schedule_seed'])
+        consts = dict(l2_consts(12, MaxMsg=99, Cap=16, SerialPolls='FALSE', Timeouts='FALSE'),
+                      Kinds='{"send", "disc"}', WsEnv='{"close", "gone"}')
+        v = tracecheck.validate('EioQueueFineWsTrace', [t], constants=consts,
+                                invariants=['WsTypeOK', 'OneDisconnect', 'WsNoLossNoDup'])
+    else:
+        t, f = l2.run(rp['script'], seed=rp['schedule_seed'])
+        consts = l2_consts(12, MaxMsg=99, Cap=16, SerialPolls='FALSE', Timeouts='FALSE')
+        v = tracecheck.validate('EioQueueFineTrace', [t], constants=consts,
+                                invariants=[i for i in L2_INVS if i != 'DeliveredInOrder'])
     if v.accepted and not v.inv_violations:
         print('replay: primitive-level trace accepted by EioQueueFine')
         return 0
